@@ -142,6 +142,7 @@ def run(ck, fb):
         ck.require(vals == {('UpdateInstance', True), ('RemoveInstance', False)}, 'R15c', 'delay.handle:is_update-flags', b.where(), 'update/remove flags of the batch are %s' % sorted(vals, key=str))
     r15d(ck, fb)
     r15e(ck, fb)
+    r15f(ck, fb)
 
 
 def _closure_calls_all(fb, fn, names):
@@ -267,3 +268,32 @@ def _same_local(b, op1, op2):
         return l
     a, c = root(op1), root(op2)
     return a is not None and a == c
+
+
+def r15f(ck, fb):
+    ck.rule('R15f', 'a node vouches only for what it owns: in NamingActor::build_snapshot_data (answer to QuerySnapshot / snapshot push) instances '
+                    'taken from the client index are pushed only under !Instance::is_from_cluster(); the per-service part comes from '
+                    'Service::get_owner_http_instances under ProcessRange::is_range_at_list. Instances learned from a third node are never relayed: '
+                    'the receiver tracks client ids per sending node and could never clean them up')
+    b = ck.body('rnacos::naming::core::NamingActor::build_snapshot_data', 'R15f')
+    if not b:
+        return
+    pushes = b.calls(r'Vec::<.*>::push$')
+    n = 0
+    for s in pushes:
+        t = Taint(b, call_src=lambda t: (t.get('f') or {}).get('d', '').endswith('NamingActor::get_instance'))
+        if len(s.args) < 2 or not t.op_tainted(s.args[1]):
+            continue
+        n += 1
+        ok = any(a[0] == 'call' and (a[1] or '').endswith('Instance::is_from_cluster') and a[2] is False for a in cfg.guard_atoms(b, s.bb))
+        ck.require(ok, 'R15f', 'build_snapshot_data:own-clients-only', s.where(),
+                   'an instance from the client index goes into the snapshot without the test !is_from_cluster(): copies learned from other nodes are '
+                   'relayed under their original origin; the receiver does not track their client ids for the relaying node and no clean-up path '
+                   '(node death, RemoveDiffClientIds, distro diff) ever removes them')
+    ck.floor('R15f', 'client-index pushes in build_snapshot_data', n, 1)
+    ap = b.calls(r'Vec::<.*>::append$')
+    own = b.calls(r'Service::get_owner_http_instances$')
+    ck.require(len(own) >= 1 and len(ap) >= 1, 'R15f', 'build_snapshot_data:owner-http-part', b.where(), 'the per-service part no longer comes from get_owner_http_instances')
+    for s in own:
+        ok = any(a[0] == 'call' and (a[1] or '').endswith('ProcessRange::is_range_at_list') and a[2] is True for a in cfg.guard_atoms(b, s.bb))
+        ck.require(ok, 'R15f', 'build_snapshot_data:range-filter', s.where(), 'services outside the requested ranges are put into the snapshot')
